@@ -50,6 +50,11 @@ def trim_fn(ctx: Context) -> FuncInfo:
             if isinstance(r, ast.Return) and isinstance(r.value, ast.Tuple) and len(r.value.elts) == 2 and isinstance(r.value.elts[0], ast.Subscript) \
                     and isinstance(r.value.elts[0].value, ast.Name) and f.params and r.value.elts[0].value.id == f.params[0]:
                 return True
+            # the same selection spelled with a gather call: np.take(samples, idx[, axis]) / np.compress(mask, samples[, axis]) / samples.take(idx)
+            if isinstance(r, ast.Return) and isinstance(r.value, ast.Tuple) and len(r.value.elts) == 2 and isinstance(r.value.elts[0], ast.Call) and f.params \
+                    and dotted(r.value.elts[0].func).split(".")[-1] in ("take", "compress") \
+                    and any(isinstance(x, ast.Name) and x.id == f.params[0] for x in ast.walk(r.value.elts[0])):
+                return True
         return False
 
     cands = [f for f in ctx.prog.functions.values() if f.cls is None and f.parent is None and len(f.params) >= 2 and returns_selection(f)
@@ -74,7 +79,9 @@ def ess_fns(ctx: Context) -> List[FuncInfo]:
 
 def volume_fn(ctx: Context) -> FuncInfo:
     for f in ctx.prog.functions.values():
-        if f.cls is None and f.parent is None and any(isinstance(c, ast.Call) and (ctx.res.external_name(f, c) or "") == "numpy.linalg.inv" for c in calls_in(f.node)) and "w" in f.params:
+        if f.cls is None and f.parent is None and "w" in f.params and any(
+                isinstance(c, ast.Call) and (ctx.res.external_name(f, c) or "") in ("numpy.linalg.inv", "numpy.linalg.pinv", "numpy.linalg.solve", "numpy.linalg.eigh", "numpy.linalg.cholesky",
+                                                                                  "scipy.linalg.solve", "scipy.linalg.cho_solve", "scipy.linalg.eigh") for c in calls_in(f.node)):
             return f
     raise AnalysisError("C20: volume-variation metric not found")
 
@@ -100,6 +107,18 @@ def rule_abc(ctx: Context, R: Reporter, f: FuncInfo):
                 if base and all(isinstance(d.value, ast.Subscript) and isinstance(d.value.slice, ast.Name) and d.value.slice.id == mask_name and isinstance(d.value.value, ast.Name) and d.value.value.id == weights_p
                                 and {x.node.id for x in flow.reaching(d.node, mask_name) if x.node} == mdefs for d in base):
                     ok_a = True
+        if isinstance(s_e, ast.Call) and dotted(s_e.func).split(".")[-1] in ("take", "compress"):
+            # numpy contract: take/compress without axis index the *flattened* array -- for samples of shape (n, d)
+            # that returns k scalars, not k rows
+            meth = isinstance(s_e.func, ast.Attribute) and isinstance(s_e.func.value, ast.Name) and s_e.func.value.id == samples_p
+            ax = call_arg(s_e, 1 if meth else 2, "axis")
+            ax_ok = ax is not None and const_value(ax) == 0
+            R.check("C20.a", "the kept samples are gathered along the first axis (whole rows)", ax_ok, f, s_e,
+                    msg=f"{f.short}: `{unparse(s_e)[:60]}` gathers from the flattened array (no axis=0): for samples with more than one dimension the result is k scalars taken from the "
+                        f"first rows, not the k kept rows -- samples and weights are no longer aligned", key="row-gather")
+            if not ax_ok:
+                continue
+            raise AnalysisError(f"C20.a: selection through `{unparse(s_e)[:40]}` is outside the rule's vocabulary (mask identity not followed through index arrays)")
         R.check("C20.a", "samples and weights are selected by the same mask definition", ok_a, f, rn.stmt,
                 msg=f"{f.short}: `{unparse(rn.stmt)}`: the returned samples and weights are not selected by one mask (same name, same reaching definition)", key="same-mask")
         if mask_name is None:
@@ -456,6 +475,45 @@ def rule_cov(ctx: Context, R: Reporter, funcs: List[FuncInfo]):
                             f"the weight, so the metric becomes nan or the call raises instead of returning a non-negative value", key=f"cov-aweights:{f.short}")
 
 
+COND_BUDGET = 1e-12  # affine maps of condition number up to 1e6 (property text) give covariances of condition number up to 1e12
+
+
+def _spectral_floors(ctx: Context, R: Reporter, vf: FuncInfo):
+    """A floor on the spectrum of the covariance (np.maximum / np.clip of eigenvalues against a multiple of the
+    largest one) silently regularises every covariance whose condition number exceeds 1/factor; the property
+    quantifies over affine maps of condition number up to 1e6, i.e. covariance condition numbers up to 1e12."""
+    from .c06 import _tolerance_value
+
+    flow = flow_of(vf.node)
+    spectral = set()
+    for nd in flow.cfg.stmt_nodes():
+        for d in flow.defs_at.get(nd.id, []):
+            v = d.value
+            if isinstance(v, ast.Call) and (ctx.res.external_name(vf, v) or "") in ("numpy.linalg.eigh", "numpy.linalg.eigvalsh", "numpy.linalg.svd", "scipy.linalg.eigh", "numpy.linalg.eigvals"):
+                spectral.add(d.name)
+    if not spectral:
+        return
+    for c in calls_in(vf.node):
+        nm = ctx.res.external_name(vf, c) or ""
+        if nm not in ("numpy.maximum", "numpy.clip", "numpy.fmax") or len(c.args) < 2:
+            continue
+        a0 = c.args[0]
+        if not (isinstance(a0, ast.Name) and a0.id in spectral):
+            continue
+        fl = c.args[1]
+        factor = None
+        if isinstance(fl, ast.BinOp) and isinstance(fl.op, ast.Mult):
+            for (k, o) in ((fl.left, fl.right), (fl.right, fl.left)):
+                if any(isinstance(x, ast.Name) and x.id in spectral for x in ast.walk(o)):
+                    factor = _tolerance_value(ctx, vf, k)
+        if factor is None:
+            raise AnalysisError(f"C20.g: spectral floor `{unparse(c)[:60]}` has a factor the rule cannot evaluate")
+        R.check("C20.g", "a relative floor on the covariance spectrum stays below the conditioning the property allows", factor <= COND_BUDGET, vf, c,
+                msg=f"{vf.short}: `{unparse(c)[:70]}` floors the eigenvalues at {factor:.3g} x the largest one: every covariance of condition number above {1 / factor:.3g} is silently "
+                    f"regularised, so the metric changes under invertible affine maps of condition number above {(1 / factor) ** 0.5:.3g} (the property allows 1e6)",
+                key="spectral-floor")
+
+
 def rule_g(ctx: Context, R: Reporter, vf: FuncInfo):
     """C20.g  scale typing of the volume metric under x -> s * x (a necessary part
     of invariance under invertible linear maps): the result has degree 0 and no
@@ -481,6 +539,7 @@ def rule_g(ctx: Context, R: Reporter, vf: FuncInfo):
             return di._conflict(f"clip of a degree-{a.k} quantity to absolute bounds", e)
         return a
 
+    _spectral_floors(ctx, R, vf)
     extra = {"numpy.linalg.matrix_rank": rank, "numpy.linalg.inv": inv_, "numpy.linalg.pinv": inv_, "numpy.clip": clip,
              "numpy.trace": lambda di, e, a: a[0] if a else INV, "numpy.eye": lambda di, e, a: INV}
     di = DegreeInterp(lambda c: ctx.res.external_name(vf, c), weight_params=(vf.params[0],), extra_degrees=extra)
